@@ -284,4 +284,4 @@ def run(report, tier):
     report.space(len(states), transitions, bound,
                  "BFS over method words (shapes %s) x selector x generic trait x supertrait/where x async flavour; traits that are not dyn-compatible "
                  "are pruned for ref/Borrow (outside the supported class); every state non-trivial" % SHAPE_ORDER)
-    evaluate(states, report, tier)
+    common.evaluate_chunked(evaluate, states, report, tier)
